@@ -10,14 +10,20 @@
     prescribed, or stops with the prescribed error at the prescribed position; for assignments and
     PRINT statements, and for whole programs made of them (through the real entry points
     [gen_program] and [resolve]), the machine ends in exactly the prescribed state/error.
-    What is NOT proved as a theorem: [C01_full_statement] for IF / SELECT CASE / FOR / WHILE / DO
-    (label resolution and loops). For those the same statement is decided per program by evaluating
-    [Corr.check_c01] inside Coq on every program the harness generates, together with the literal
-    comparison of [Gen]'s output with the real generator's instruction list. DATA/READ are not
-    modelled. *)
+    Structured statements (IF / ELSEIF / ELSE, SELECT CASE, FOR with and without STEP, WHILE, the
+    four DO forms, nested to any depth): [VM.Validate.check_program] is a validator for RESOLVED
+    instruction lists, and [C01_validated_program] proves that any instruction list it accepts
+    behaves as the reference semantics prescribe - same end (normal, or the same error or zero-step
+    at the same position), same screen, and on a normal end the same variables - for every fuel,
+    i.e. for loops of any number of iterations. The harness evaluates the validator in Coq on the
+    REAL instruction list of every generated program (case "valid ..."), so for each of them the
+    property is a theorem about the code the interpreter actually runs.
+    What is NOT proved as a theorem: that [Gen.gen_program] (hence the real generator) passes the
+    validator for every program ([C01_full_statement] for all programs at once); the run of each
+    program is also compared with [Sem] and [Machine] ([Corr.check_c01]). DATA/READ are not modelled. *)
 From Coq Require Import List ZArith Bool Floats.SpecFloat.
 From RB Require Import Generated.Tables Val.Variant Val.Arith2 Lang.Ast Lang.Sem Lang.NumText
-                       VM.Instr VM.Gen VM.Machine VM.GenProofs VM.Corr RT.Printer.
+                       VM.Instr VM.Gen VM.Machine VM.GenProofs VM.Loops VM.Validate VM.ValidateProofs VM.Corr RT.Printer.
 Import ListNotations.
 Local Open Scope nat_scope.
 
@@ -78,6 +84,24 @@ Theorem C01_program_straightline : forall f p,
   end.
 Proof. exact (straightline_program_ok num_text is_negative). Qed.
 
+(** a statement whose layout the validator accepts simulates the reference semantics of the
+    statement from every state, with any registers and stacks around it, for every fuel *)
+Theorem C01_validated_statement : forall k code pc s len, check_stmt k code pc s = Some len ->
+  forall f, Loops.simulates num_text is_negative code pc len (exec num_text is_negative f s).
+Proof. exact (check_stmt_sound num_text is_negative). Qed.
+
+(** whole programs: any instruction list accepted by the validator implements the program *)
+Theorem C01_validated_program : forall k dims p code, check_program k dims p code = true ->
+  forall fuel,
+  match exec_program num_text is_negative fuel p (mk_state (init_env dims) dev0) with
+  | Done st' => exists n s', (forall m, n <= m -> run num_text is_negative m code m0 = MHalted s') /\
+                             mvars s' = vars st' /\ mscreen s' = screen st'
+  | Failed x q st' => exists n s', (forall m, n <= m -> run num_text is_negative m code m0 = MError x q s') /\ mscreen s' = screen st'
+  | StepZero q st' => exists n s', (forall m, n <= m -> run num_text is_negative m code m0 = MStepZero q s') /\ mscreen s' = screen st'
+  | OutOfFuel => True
+  end.
+Proof. exact (check_program_sound num_text is_negative). Qed.
+
 (** the outcome is a function of the program alone: more budget never changes it *)
 Theorem C01_budget_irrelevant : forall n code s r k,
   run num_text is_negative n code s = r -> r <> MOutOfFuel -> run num_text is_negative (n + k) code s = r.
@@ -105,8 +129,14 @@ Example C01_example_straightline :
   Forall typed_simple [SAssign (1, 1) ex_i (ELit (1, 6) (VLong 7%Z)); SPrint (2, 1) [PExpr (EVar (2, 7) ex_i)]].
 Proof. split; [reflexivity|repeat constructor; discriminate]. Qed.
 
+(** the validator accepts the nested example (FOR around IF/ELSE around PRINT): its hypotheses are satisfiable *)
+Example C01_example_validated : check_valid [] ex_prog (resolve (code (gen_program [] ex_prog))) = true.
+Proof. vm_compute. reflexivity. Qed.
+
 Print Assumptions C01_expression_value.
 Print Assumptions C01_expression_error.
 Print Assumptions C01_statement_straightline.
 Print Assumptions C01_program_straightline.
 Print Assumptions C01_budget_irrelevant.
+Print Assumptions C01_validated_statement.
+Print Assumptions C01_validated_program.
